@@ -36,6 +36,14 @@ SHAPES = {
         if depth_first_search(node):
             return True
     return False''',
+    'rf_init': '''def __init__(self, **kwargs):
+    super().__init__(**kwargs)
+    for rew_config in self.config.reward_components:
+        rew_class = AbstractReward._registry[rew_config.type]
+        rew_instance = rew_class(config=rew_config.options)
+        self.register_component(component=rew_instance, weight=rew_config.weight)''',
+    'register_component': '''def register_component(self, component, weight=1.0):
+    self.reward_components.append((component, weight))''',
     'update': '''def update(self, state, last_action_response):
     total = 0.0
     for comp_and_weight in self.reward_components:
